@@ -58,6 +58,9 @@ truncates to the integer square root (assumption recorded in the trusted base; t
 correspondence checks it on `m²-1, m², m²+1`) -/
 def sqrtTrunc (n : Int) : Int := (Nat.sqrt n.toNat : Int)
 
+/-- `t.Truncate(time.Second)` on a time given in nanoseconds: rounds down to a whole second -/
+def truncSec (ns : Int) : Int := ns - ns % 1000000000
+
 /-- hand model of the read loop at the end of `mapStruct.ptr` (`for readSize > 0 { n, err :=
 ms.f.Read(ms.window[readOffset:readOffset+readSize]) … }`): the file is read sequentially from the
 descriptor's offset; reaching the end of the file before `readSize` bytes arrived is an error
